@@ -41,6 +41,9 @@ THEOREMS = [
     # the property itself for ALL programs of the fragment F5 of the compiler model (no imports): a macro call = its body inlined
     # (design_notes/C01_frontend.md, F5); the per-program verdicts stay the deciding method, `in_F5` counts the covered programs
     "ESV.C01Frontend.codegen_correct_F5", "ESV.C01Frontend.compile_correct_F5", "ESV.Beh.E_sound",
+    # … and for projects with imports whose flattening (ESV.Comp.flatten, model of the import closure of `_compile`, compared with the
+    # real multi-file results on every layout case: `comp.flatten`) is in F5
+    "ESV.C01Frontend.compile_correct_F6", "ESV.C01Frontend.flatten_keeps_routines", "ESV.C01Frontend.flatten_without_imports",
 ]
 ROOT = G.ROOT
 FAKE_ROOT = "/T/R"      # two levels, like the real roots /tmp/<dir>
@@ -193,6 +196,39 @@ def doc_closure(case: dict) -> dict:
     if err:
         return {"error": err}
     return {"resolved": resolved, "visible": visible, "read": read}
+
+
+# layout defects and what the model of the import closure (ESV.Comp.flatten) answers for them
+FLATTEN_ERRORS = {"missing": "notFound", "cycle": "recursion", "routines_in_import": "routinesInImport", "dot_component": "invalid"}
+
+
+def real_view(res: dict) -> dict:
+    from ..gen import complower
+    if "error" in res:
+        return {"error": res["error"]}
+    return {"ops": [[{"off": o["off"], "name": o["name"], "params": o["params"]} for o in r] for r in res["ops"]],
+            "infos": [complower.info_tag_of_json(i) for i in res["infos"]], "coros": res["coros"]}
+
+
+def model_view(rep: dict) -> dict:
+    if "ok" in rep:
+        return {"ops": rep["ok"]["ops"], "infos": rep["ok"]["infos"], "coros": rep["ok"]["coros"]}
+    return {"error": rep.get("error", "?")}
+
+
+def flatten_request(case: dict, res: dict) -> dict:
+    """the project as the Lean model sees it: every file lowered for the compiler model (harness/gen/complower.py) with the
+    macro_resolution_order the real compiler computed for it (files it never compiled: definition order), its import strings,
+    the regular files of the temporary tree"""
+    from ..gen import complower
+    orders: dict = {}
+    for e in res.get("log", []):
+        if "order" in e:
+            orders[rel_of(e["file"])] = e["order"]
+    files = [{"path": FAKE_ROOT + "/" + rel, "imports": fake(list(a.get("imports", []))), "prog": complower.program(a, orders.get(rel))}
+             for rel, a in case["files"].items()]
+    return {"op": "comp.flatten", "files": files, "exists": fake(res[EXISTS_FIELD]), "cwd": res.get("cwd", "/"),
+            "lookups": fake(case.get("lookup", [])), "main": FAKE_ROOT + "/" + case["main"]}
 
 
 def core_program(case: dict, doc: dict) -> dict:
@@ -390,9 +426,20 @@ class Eval:
         # coverage of the theorem compile_correct_F5 (for ALL programs of the decidable fragment F5Prog of the compiler model): how many
         # of the compiled single-file programs are in it (`comp.tosrc`: F5Prog of the program lowered for the compiler model, and the
         # tie toSrc(that program) = the core program the verdicts above are about)
+        if len(case["files"]) != 1 and ((self.compiled and "error" not in doc and case["expect"] == "ok")
+                                        or (case["expect"] in FLATTEN_ERRORS and res.get("error") == "SsbCompilerError")):
+            # projects with imports: the Lean model flattens the project to one program (ESV/Comp/Project.lean: import closure as
+            # `_compile` walks it, recursion check, routines in imports, dict.update order) and compiles that; compared exactly
+            # with the real multi-file result (ops, tables) / with the class of the layout error. `in_F6`: the flattened program
+            # is in F5Prog, so compile_correct_F6 speaks about it.
+            try:
+                self.requests.append(flatten_request(case, res))
+                self.tags.append(("f6",))
+            except Exception:  # noqa
+                self.stats["F6:not_lowered"] += 1
         if self.compiled and "error" not in doc and case["expect"] == "ok":
             if len(case["files"]) != 1:
-                self.stats["F5:imports (not in the model)"] += 1
+                pass
             else:
                 try:
                     from ..gen import complower
@@ -419,6 +466,32 @@ class Eval:
         res = self.res
         fe = failing_entry(res) if isinstance(res, dict) else None
         for tag, rep in zip(self.tags, replies):
+            if tag[0] == "f6":
+                expect = self.case["expect"]
+                if "error" in rep:
+                    self.stats["F6:driver_error"] += 1
+                elif expect in FLATTEN_ERRORS:
+                    if rep.get("perr") == FLATTEN_ERRORS[expect]:
+                        self.stats["F6:layout_error_agrees:" + expect] += 1
+                    else:
+                        self.ties.append(("correspondence C05/flatten: the real compiler rejects the layout, the model of the import closure says something else",
+                                          {"case": self.case, "expect": expect, "model": {k: v for k, v in rep.items() if k != "result"}}))
+                elif "perr" in rep:
+                    self.stats["F6:flatten:" + str(rep["perr"])] += 1
+                    if rep["perr"] != "nameClash":
+                        self.ties.append(("correspondence C05/flatten: the real compiler accepts the layout, the model of the import closure rejects it",
+                                          {"case": self.case, "model": rep}))
+                elif model_view(rep.get("result", {})) == real_view(res):
+                    self.stats["F6:flattened_model_result_equals_real"] += 1
+                    if rep.get("f5"):
+                        self.stats["in_F6"] += 1
+                    else:
+                        self.stats["not_F6:" + str(rep.get("f5why"))[:70]] += 1
+                else:
+                    self.stats["F6:flattened_model_result_differs"] += 1
+                    self.ties.append(("correspondence C05/flatten: the model's compile result of the flattened project differs from the real multi-file result",
+                                      {"case": self.case, "model": model_view(rep.get("result", {})), "real": real_view(res), "order": rep.get("order")}))
+                continue
             if tag[0] == "f5":
                 if "error" in rep:
                     self.stats["F5:driver_error"] += 1
